@@ -3,6 +3,7 @@ package interpreter
 import (
 	"fmt"
 	"math"
+	"reflect"
 	"strconv"
 
 	"github.com/ah-naf/borno/ast"
@@ -871,7 +872,53 @@ func isTruthy(value interface{}) bool {
 	return true // Everything else is considered true
 }
 
+// isEqual is total: numbers compare by numeric value whatever their Go type, strings by content,
+// arrays and objects by identity (Go's == panics on slices and maps), values of different kinds are unequal.
 func isEqual(a, b interface{}) bool {
+	switch av := a.(type) {
+	case int64:
+		switch bv := b.(type) {
+		case int64:
+			return av == bv
+		case int:
+			return av == int64(bv)
+		case float64:
+			return float64(av) == bv
+		}
+		return false
+	case int:
+		return isEqual(int64(av), b)
+	case float64:
+		switch bv := b.(type) {
+		case int64:
+			return av == float64(bv)
+		case int:
+			return av == float64(bv)
+		case float64:
+			return av == bv
+		}
+		return false
+	case []rune:
+		return isEqual(string(av), b)
+	case string:
+		switch bv := b.(type) {
+		case string:
+			return av == bv
+		case []rune:
+			return av == string(bv)
+		}
+		return false
+	case []interface{}:
+		bv, ok := b.([]interface{})
+		return ok && len(av) == len(bv) && reflect.ValueOf(av).Pointer() == reflect.ValueOf(bv).Pointer()
+	case map[string]interface{}:
+		bv, ok := b.(map[string]interface{})
+		return ok && reflect.ValueOf(av).Pointer() == reflect.ValueOf(bv).Pointer()
+	}
+	switch b.(type) {
+	case []rune, []interface{}, map[string]interface{}:
+		return false
+	}
 	return a == b
 }
 
